@@ -67,7 +67,8 @@ Inductive misc := MFresh | MDue | MPingDue.
 
 Inductive topcall :=
 | TConnect (ok : bool) | TReconnect (ok : bool) | TDisconnect | TPublish0 | TSubscribe
-| TLoopRead (i : inp) | TLoopWrite | TLoopMisc (m : misc).
+| TLoopRead (i : inp) | TLoopWrite | TLoopMisc (m : misc)
+| TLoopReadN (l : list inp).      (* loop_read() while messages are stored: up to len(l) packets in one call *)
 
 Record op := mkOp { o_call : topcall; o_sched : list outcome; o_scr : scripts }.
 
@@ -373,6 +374,43 @@ Definition loop_read (i : inp) (s : st) : st * option Z :=
       end
   end.
 
+(* what _packet_read() returns for one packet, before loop_read looks at it (loop_read = after_read of it:
+   ConnCheck.loop_read_raw) *)
+Definition raw_read (i : inp) (s : st) : st * option Z :=
+  match i with
+  | INoData | IOther => (s, Some 0)
+  | IPingresp => (set_ping false s, Some 0)
+  | IEof | IRecvError => (s, Some E_CONN_LOST)
+  | IUnknown => (s, Some E_PROTOCOL)
+  | IPingreq => let (s1, rc) := packet_queue KOther s in (s1, Some rc)
+  | IConnack rc =>
+      if (proto s =? 4) && (rc =? 1) then downgrade true s else handle_connack rc s
+  | IConnackDowngrade ok =>
+      if proto s =? 4 then downgrade ok s else handle_connack 1 s
+  | IServerDisconnect rc =>
+      if proto s =? 5 then handle_server_disconnect rc s else (s, Some E_PROTOCOL)
+  end.
+
+(* does loop_read go on to the next packet?  Only after a packet that was read and handled with result 0
+   (INoData is MQTT_ERR_AGAIN: return success).  A positive result ends the call even when _loop_rc_handle turns it
+   into 0 (the state is DISCONNECTING) *)
+Definition read_continues (i : inp) (s : st) : bool :=
+  match sock s, i with
+  | None, _ => false
+  | _, INoData => false
+  | Some _, _ => match snd (raw_read i s) with Some rc => negb (rc >? 0) | None => false end
+  end.
+
+(* loop_read() with max_packets > 1 (the number of stored messages): packets are read until one fails, nothing
+   more is readable, the socket is gone, or the budget is used up.  Each iteration takes its own snapshot of the
+   socket (id0 in [loop_read]). *)
+Fixpoint loop_read_n (l : list inp) (s : st) : st * option Z :=
+  match l with
+  | [] => (s, Some 0)
+  | i :: r =>
+      if read_continues i s then loop_read_n r (fst (loop_read i s)) else loop_read i s
+  end.
+
 Definition keepalive_close (s : st) : st :=
   fst (lost RKeepalive E_KEEPALIVE false s).
 
@@ -418,6 +456,7 @@ Definition run_top (t : topcall) (s : st) : st :=
   | TLoopRead i => ret_of (loop_read i (emit (Call CLoopRead) s))
   | TLoopWrite => let (s1, rc) := loop_write (emit (Call CLoopWrite) s) in emit (Ret rc) s1
   | TLoopMisc m => let (s1, rc) := loop_misc m (emit (Call CLoopMisc) s) in emit (Ret rc) s1
+  | TLoopReadN l => ret_of (loop_read_n l (emit (Call CLoopRead) s))
   end.
 End WithNested.
 
